@@ -7,7 +7,7 @@
    CAS, both up to ""/null in string collections — same ids, values, references, sofas, members; (4) the second document
    is the first one at the infoset level (same elements in the same order, attributes as a set, children in order). *)
 From Cassis Require Import Base Offsets.
-From Cassis Require Import Heap Schema Canon Lex Reach XmiDoc Xmi XmiLoad XmiRt CorrC04.
+From Cassis Require Import Heap Schema Canon Lex Reach XmiDoc Xmi XmiLoad XmiRt XmiRtTotal CorrC04.
 Open Scope Z_scope.
 
 Record case := mkCase {
@@ -44,8 +44,10 @@ Definition check_model_load (c : case) : bool :=
   | _ => false
   end.
 Definition check_reader_ok (c : case) : bool :=
-  negb (wf_rtb (k_schema c) (k_cas c)) || reader_okb (tab_parse (k_ftab c)) (k_schema c) (k_doc c).
+  (negb (wf_rtb (k_schema c) (k_cas c)) || reader_okb (tab_parse (k_ftab c)) (k_schema c) (k_doc c))
+  (* (7) C01_saved_document_is_total: wf_rt_totalb => the implementation's document satisfies total_okb *)
+  && (negb (wf_rt_totalb (k_schema c) (k_cas c)) || total_okb (k_schema c) (k_doc c)).
 Definition check_case (c : case) : bool :=
   check_save c && check_load_is_denotation c && check_roundtrip c && check_resave c && check_model_load c && check_reader_ok c.
 (* premises of the round-trip theorems of Props/C01.v: conditions on the schema and on the input CAS only *)
-Definition premises (c : case) : bool := wf_rtb (k_schema c) (k_cas c).
+Definition premises (c : case) : bool := wf_rt_totalb (k_schema c) (k_cas c).
